@@ -11,7 +11,16 @@
 //   - restore operations (translated to Skip): revertState, clearRecoveryPoint — they undo
 //     effects recorded earlier in the same execution and are the identity in a read-only one;
 //     `ctx.events = ctx.events[:from]` is a truncation, not a mutator;
-//   - opaque contract execution: a call `<x>.call(...)` (executor.call) becomes RunLua;
+//   - contract code runs where a cgo call enters a C function of contract/*.c that (transitively)
+//     calls lua_pcall / lua_call / lua_cpcall / lua_resume: such a `C.f(...)` becomes RunLua
+//     (vm_pcall in executor.call: the function body; vm_loadcall: the module chunk; ...);
+//     executor.call itself is translated like every other function;
+//   - the view-depth counter: `x.nestedView++` / `x.nestedView--` become IncV / DecV, a test of
+//     `x.isView` becomes (CFlag "isView"); every other syntactic use of the context flags
+//     (initialisers, assignments, address-of, context literals and constructor call sites, counter
+//     operations inside a function literal that is not deferred, unstructured control flow in a
+//     function that touches the counter) is listed in [flag_sites], which must equal the reviewed
+//     list of coq/VmGuard/Reviewed.v;
 //   - atoms: ctx.isQuery -> Q, ctx.nestedView > 0 -> V, X.Cmp(zeroBig) > 0 / == 0 -> AmtPos /
 //     AmtZero (other comparisons with 0 expressed with them), ForkVersion >= 5 -> F5; every
 //     other condition is CUnknown;
@@ -29,6 +38,7 @@ import (
 	"go/token"
 	"os"
 	"path/filepath"
+	"regexp"
 	"sort"
 	"strings"
 )
@@ -60,10 +70,11 @@ var mutators = map[string]string{
 	"ExecuteSystemTx": "KAny", "ExecuteNameTx": "KAny", "ExecuteEnterpriseTx": "KAny", "SetStorageRoot": "KAny",
 	"SetCodeHash": "KAny", "SetRedeploy": "KAny", "SetRP": "KAny", "Reset": "KAny", "beginTx": "KQ",
 }
+
 // restore operations and reviewed read-only SQL helpers of statesql.go: translated to Skip, not traversed
 var restore = map[string]bool{"revertState": true, "clearRecoveryPoint": true,
 	"rollbackToRecoveryPoint": true, // pragma branch_truncate: undoes SQL effects recorded earlier in the same execution
-	"snapshotView": true,            // pragma branch=master.<rp> on a _query_only connection: selects what is read
+	"snapshotView":            true, // pragma branch=master.<rp> on a _query_only connection: selects what is read
 }
 
 // external callees (not functions of the package) whose name starts with a state-changing verb: each must
@@ -71,6 +82,14 @@ var restore = map[string]bool{"revertState": true, "clearRecoveryPoint": true,
 var verbs = []string{"Set", "Put", "Delete", "Del", "Add", "Sub", "Send", "Stage", "Create", "Remove", "Update", "Commit",
 	"Rollback", "Reset", "Write", "Save", "Store", "Exec", "Begin", "Open", "Insert", "Push", "Append", "Clear", "Revert", "Restore", "Mint", "Burn"}
 var verbCallees = map[string]bool{}
+var usedLuaC = map[string]bool{}
+var skippedLuaC = map[string]bool{}
+
+// C functions that reach lua_pcall but run no contract code (classified in coq/VmGuard/Reviewed.v)
+var luaLibraryC = map[string]bool{
+	"vm_newstate":       true, // loads the libraries into a fresh state, before any contract is loaded
+	"vm_set_debug_hook": true, // debug build: installs the debugger hook chunk
+}
 
 func verbNamed(n string) bool {
 	for _, v := range verbs {
@@ -82,9 +101,103 @@ func verbNamed(n string) bool {
 }
 
 type gen struct {
-	fset  *token.FileSet
-	funcs map[string]*ast.FuncDecl // "name" or "Recv.name"
-	byBare map[string][]string
+	fset      *token.FileSet
+	funcs     map[string]*ast.FuncDecl // "name" or "Recv.name"
+	byBare    map[string][]string
+	cur       string   // function being translated
+	lits      []string // enclosing function literals: "deferred closure" / "closure"
+	luaC      map[string]bool
+	restPhase bool
+	touches   map[string]bool // functions whose source mentions the view counter
+}
+
+// a syntactic use of a context flag outside the translated language
+type site struct{ fn, field, what string }
+
+var flagSites = map[site]bool{}
+var flagFields = map[string]bool{"nestedView": true, "isQuery": true, "isFeeDelegation": true, "isView": true}
+
+func (g *gen) where() string {
+	if len(g.lits) == 0 {
+		return "direct"
+	}
+	return g.lits[len(g.lits)-1]
+}
+
+// verb-named callees are collected for the functions reachable from the callbacks only
+func (g *gen) verb(name string) {
+	if !g.restPhase {
+		verbCallees[name] = true
+	}
+}
+
+func (g *gen) note(field, what string) { flagSites[site{g.cur, field, what}] = true }
+
+var cFuncRe = regexp.MustCompile(`(?m)^[A-Za-z_][\w \t\*]*?\b([A-Za-z_]\w*)\s*\([^;{}]*\)\s*\{`)
+var cCallRe = regexp.MustCompile(`\b([A-Za-z_]\w*)\s*\(`)
+
+// the C functions of contract/*.c that may run Lua code: those that call lua_pcall / lua_call /
+// lua_cpcall / lua_resume, and (transitively) those that call one of them
+func luaRunningC(repo string) map[string]bool {
+	ents, _ := os.ReadDir(filepath.Join(repo, "contract"))
+	calls := map[string]map[string]bool{}
+	for _, e := range ents {
+		if !strings.HasSuffix(e.Name(), ".c") {
+			continue
+		}
+		raw, err := os.ReadFile(filepath.Join(repo, "contract", e.Name()))
+		if err != nil {
+			continue
+		}
+		txt := string(raw)
+		locs := cFuncRe.FindAllStringSubmatchIndex(txt, -1)
+		for _, m := range locs {
+			name := txt[m[2]:m[3]]
+			if name == "if" || name == "for" || name == "while" || name == "switch" {
+				continue
+			}
+			// body: matching braces from the opening one
+			depth, i := 0, m[1]-1
+			for ; i < len(txt); i++ {
+				if txt[i] == '{' {
+					depth++
+				} else if txt[i] == '}' {
+					depth--
+					if depth == 0 {
+						break
+					}
+				}
+			}
+			if i >= len(txt) {
+				i = len(txt) - 1
+			}
+			set := calls[name]
+			if set == nil {
+				set = map[string]bool{}
+				calls[name] = set
+			}
+			for _, c := range cCallRe.FindAllStringSubmatch(txt[m[1]-1:i+1], -1) {
+				set[c[1]] = true
+			}
+		}
+	}
+	run := map[string]bool{"lua_pcall": true, "lua_call": true, "lua_cpcall": true, "lua_resume": true}
+	for changed := true; changed; {
+		changed = false
+		for f, cs := range calls {
+			if run[f] {
+				continue
+			}
+			for c := range cs {
+				if run[c] {
+					run[f] = true
+					changed = true
+					break
+				}
+			}
+		}
+	}
+	return run
 }
 
 func main() {
@@ -93,6 +206,8 @@ func main() {
 		os.Exit(2)
 	}
 	g := &gen{fset: token.NewFileSet(), funcs: map[string]*ast.FuncDecl{}, byBare: map[string][]string{}}
+	g.luaC = luaRunningC(os.Args[1])
+	g.touches = map[string]bool{}
 	var exported []string
 	for _, f := range srcFiles(os.Args[1]) {
 		af, err := parser.ParseFile(g.fset, filepath.Join(os.Args[1], "contract", f), nil, parser.ParseComments)
@@ -110,6 +225,14 @@ func main() {
 				name = recvName(fd.Recv.List[0].Type) + "." + name
 			}
 			g.funcs[name] = fd
+			ast.Inspect(fd.Body, func(x ast.Node) bool {
+				if se, ok := x.(*ast.SelectorExpr); ok && se.Sel.Name == "nestedView" {
+					if _, isIf := x.(*ast.IfStmt); !isIf {
+						g.touches[name] = true
+					}
+				}
+				return true
+			})
 			g.byBare[fd.Name.Name] = append(g.byBare[fd.Name.Name], name)
 			if fd.Doc != nil {
 				for _, c := range fd.Doc.List {
@@ -132,7 +255,9 @@ func main() {
 		}
 		reach[n] = true
 		var callees []string
+		g.cur, g.lits = n, nil
 		body[n] = g.block(g.funcs[n].Body.List, &callees)
+		g.unstructured(n)
 		order = append(order, n)
 		for _, c := range callees {
 			visit(c)
@@ -142,13 +267,39 @@ func main() {
 		visit(e)
 	}
 	sort.Strings(order)
+	// every other function of the package (the entry points Execute / Call / Query / ... and what
+	// only they call): translated too, for the counter discipline and the flag inventory
+	inProgram := map[string]bool{}
+	for _, n := range order {
+		inProgram[n] = true
+	}
+	var all []string
+	for n := range g.funcs {
+		all = append(all, n)
+	}
+	sort.Strings(all)
+	var rest []string
+	g.restPhase = true
+	for _, n := range all {
+		if !reach[n] {
+			reach[n] = true
+			var callees []string
+			g.cur, g.lits = n, nil
+			body[n] = g.block(g.funcs[n].Body.List, &callees)
+			g.unstructured(n)
+			rest = append(rest, n)
+		}
+	}
 	var b bytes.Buffer
 	b.WriteString("(* GENERATED by gen/gen_vmguard from contract/{vm_callback,vm,vm_state,internal_operations}.go; do not edit. *)\n")
 	b.WriteString("From Coq Require Import String List.\nFrom Verif Require Import VmGuard.Lang.\nImport ListNotations.\nOpen Scope string_scope.\n\n")
 	for _, n := range order {
 		fmt.Fprintf(&b, "Definition f_%s : stmt :=\n  %s.\n\n", ident(n), body[n])
 	}
-	b.WriteString("Definition program : prog := [\n")
+	for _, n := range rest {
+		fmt.Fprintf(&b, "Definition f_%s : stmt :=\n  %s.\n\n", ident(n), body[n])
+	}
+	b.WriteString("(* the functions reachable from the exported callbacks *)\nDefinition program : prog := [\n")
 	for i, n := range order {
 		sep := ";"
 		if i == len(order)-1 {
@@ -156,7 +307,16 @@ func main() {
 		}
 		fmt.Fprintf(&b, "  (%q, f_%s)%s\n", n, ident(n), sep)
 	}
-	b.WriteString("].\n\nDefinition callbacks : list string := [\n")
+	b.WriteString("].\n\n(* every function of the package: [program] and the rest *)\nDefinition other_functions : prog := [\n")
+	for i, n := range rest {
+		sep := ";"
+		if i == len(rest)-1 {
+			sep = ""
+		}
+		fmt.Fprintf(&b, "  (%q, f_%s)%s\n", n, ident(n), sep)
+	}
+	b.WriteString("].\n\nDefinition all_functions : prog := (program ++ other_functions)%list.\n")
+	b.WriteString("\nDefinition callbacks : list string := [\n")
 	for i, n := range exported {
 		sep := ";"
 		if i == len(exported)-1 {
@@ -188,6 +348,53 @@ func main() {
 	for i, n := range vc {
 		sep := ";"
 		if i == len(vc)-1 {
+			sep = ""
+		}
+		fmt.Fprintf(&b, "  %q%s\n", n, sep)
+	}
+	b.WriteString("].\n\n(* syntactic uses of the context flags outside the translated language: (function, field, what) *)\nDefinition flag_sites : list (string * string * string) := [\n")
+	var fs []site
+	for s := range flagSites {
+		fs = append(fs, s)
+	}
+	sort.Slice(fs, func(i, j int) bool {
+		if fs[i].fn != fs[j].fn {
+			return fs[i].fn < fs[j].fn
+		}
+		if fs[i].field != fs[j].field {
+			return fs[i].field < fs[j].field
+		}
+		return fs[i].what < fs[j].what
+	})
+	for i, s := range fs {
+		sep := ";"
+		if i == len(fs)-1 {
+			sep = ""
+		}
+		fmt.Fprintf(&b, "  (%s, %s, %s)%s\n", coqStr(s.fn), coqStr(s.field), coqStr(s.what), sep)
+	}
+	b.WriteString("].\n\n(* cgo entry points translated to RunLua *)\nDefinition lua_running_c : list string := [\n")
+	var lc []string
+	for n := range usedLuaC {
+		lc = append(lc, n)
+	}
+	sort.Strings(lc)
+	for i, n := range lc {
+		sep := ";"
+		if i == len(lc)-1 {
+			sep = ""
+		}
+		fmt.Fprintf(&b, "  %q%s\n", n, sep)
+	}
+	b.WriteString("].\n\n(* cgo entry points that reach lua_pcall but are skipped as running no contract code *)\nDefinition lua_library_c : list string := [\n")
+	lc = nil
+	for n := range skippedLuaC {
+		lc = append(lc, n)
+	}
+	sort.Strings(lc)
+	for i, n := range lc {
+		sep := ";"
+		if i == len(lc)-1 {
 			sep = ""
 		}
 		fmt.Fprintf(&b, "  %q%s\n", n, sep)
@@ -275,8 +482,34 @@ func (g *gen) exprs(n ast.Node, callees *[]string) string {
 	ast.Inspect(n, func(x ast.Node) bool {
 		switch e := x.(type) {
 		case *ast.FuncLit:
+			g.lits = append(g.lits, "closure")
 			parts = append(parts, "(Defer "+g.block(e.Body.List, callees)+")")
+			g.lits = g.lits[:len(g.lits)-1]
 			return false
+		case *ast.CompositeLit:
+			if strings.HasSuffix(g.text(e.Type), "vmContext") {
+				g.note("vmContext", "literal")
+			}
+			for _, el := range e.Elts {
+				if kv, ok := el.(*ast.KeyValueExpr); ok {
+					if k, ok := kv.Key.(*ast.Ident); ok && flagFields[k.Name] {
+						g.note(k.Name, "init "+g.text(kv.Value))
+					}
+				}
+			}
+			return true
+		case *ast.UnaryExpr:
+			if e.Op == token.AND {
+				if se, ok := e.X.(*ast.SelectorExpr); ok && flagFields[se.Sel.Name] {
+					g.note(se.Sel.Name, "address taken")
+				}
+			}
+			return true
+		case *ast.StarExpr:
+			if t := g.text(e.X); t == "ctx" || strings.HasSuffix(t, ".ctx") || strings.HasSuffix(t, "Ctx") {
+				g.note("vmContext", "copy "+g.text(e))
+			}
+			return true
 		case *ast.SelectorExpr:
 			// a method value x.SetData used without being called here (assigned, passed): it may be called later
 			if k, ok := mutators[e.Sel.Name]; ok {
@@ -304,7 +537,9 @@ func (g *gen) exprs(n ast.Node, callees *[]string) string {
 				parts = append(parts, g.exprs(a, callees))
 			}
 			if fl, ok := e.Fun.(*ast.FuncLit); ok {
+				g.lits = append(g.lits, "closure")
 				parts = append(parts, "(Defer "+g.block(fl.Body.List, callees)+")")
+				g.lits = g.lits[:len(g.lits)-1]
 			} else {
 				if se, ok := e.Fun.(*ast.SelectorExpr); ok {
 					parts = append(parts, g.exprs(se.X, callees))
@@ -328,6 +563,14 @@ func (g *gen) call(e *ast.CallExpr, callees *[]string) string {
 		name = f.Sel.Name
 		isSel = true
 		if id, ok := f.X.(*ast.Ident); ok && id.Name == "C" {
+			if g.luaC[name] {
+				if luaLibraryC[name] {
+					skippedLuaC[name] = true
+					return "Skip" // runs Lua code of the VM itself, no contract code (reviewed)
+				}
+				usedLuaC[name] = true
+				return "RunLua" // the C function runs Lua code (contract code, which calls back)
+			}
 			return "Skip" // cgo call into the C runtime (the C side is scanned separately)
 		}
 	default:
@@ -337,15 +580,27 @@ func (g *gen) call(e *ast.CallExpr, callees *[]string) string {
 		return "Return"
 	}
 	if k, ok := mutators[name]; ok {
-		verbCallees[name] = true
+		g.verb(name)
 		return fmt.Sprintf("(Mut %q %s)", name, k)
 	}
 	if restore[name] {
-		verbCallees[name] = true
+		g.verb(name)
 		return "Skip"
 	}
-	if isSel && name == "call" {
-		return "RunLua"
+	if (name == "NewVmContext" || name == "NewVmContextQuery") && !isSel {
+		what := "call"
+		if fd, ok := g.funcs[name]; ok {
+			idx := 0
+			for _, f := range fd.Type.Params.List {
+				for _, pn := range f.Names {
+					if (pn.Name == "query" || pn.Name == "feeDelegation") && idx < len(e.Args) {
+						what += " " + pn.Name + "=" + g.text(e.Args[idx])
+					}
+					idx++
+				}
+			}
+		}
+		g.note(name, what)
 	}
 	var targets []string
 	if !isSel {
@@ -363,7 +618,7 @@ func (g *gen) call(e *ast.CallExpr, callees *[]string) string {
 	}
 	if len(targets) == 0 {
 		if verbNamed(name) {
-			verbCallees[name] = true
+			g.verb(name)
 		}
 		return "Skip"
 	}
@@ -401,7 +656,33 @@ func (g *gen) stmt(s ast.Stmt, callees *[]string) string {
 		}
 		return seq(append(parts, "Return"))
 	case *ast.DeferStmt:
+		if fl, ok := x.Call.Fun.(*ast.FuncLit); ok {
+			// defer func() { ... }(args): the arguments are evaluated now, the body runs at exit
+			var parts []string
+			for _, a := range x.Call.Args {
+				parts = append(parts, g.exprs(a, callees))
+			}
+			g.lits = append(g.lits, "deferred closure")
+			parts = append(parts, "(Defer "+g.block(fl.Body.List, callees)+")")
+			g.lits = g.lits[:len(g.lits)-1]
+			return seq(parts)
+		}
 		return "(Defer " + g.exprs(x.Call, callees) + ")"
+	case *ast.IncDecStmt:
+		if se, ok := x.X.(*ast.SelectorExpr); ok && flagFields[se.Sel.Name] {
+			op := "++"
+			if x.Tok == token.DEC {
+				op = "--"
+			}
+			g.note(se.Sel.Name, op+" "+g.where())
+			if se.Sel.Name == "nestedView" {
+				if x.Tok == token.DEC {
+					return "DecV"
+				}
+				return "IncV"
+			}
+		}
+		return g.exprs(s, callees)
 	case *ast.GoStmt:
 		return "(Defer " + g.exprs(x.Call, callees) + ")"
 	case *ast.LabeledStmt:
@@ -416,6 +697,11 @@ func (g *gen) stmt(s ast.Stmt, callees *[]string) string {
 		return g.clauses(x.Body, callees)
 	case *ast.AssignStmt:
 		parts := []string{g.exprs(x, callees)}
+		for _, l := range x.Lhs {
+			if se, ok := l.(*ast.SelectorExpr); ok && flagFields[se.Sel.Name] {
+				g.note(se.Sel.Name, "assign "+g.text(x))
+			}
+		}
 		for i, l := range x.Lhs {
 			if g.text(l) == "ctx.events" && i < len(x.Rhs) {
 				if ce, ok := x.Rhs[i].(*ast.CallExpr); ok {
@@ -448,7 +734,7 @@ func (g *gen) clauses(b *ast.BlockStmt, callees *[]string) string {
 			body = c.Body
 			pre = g.stmt(c.Comm, callees)
 		}
-		r = "(If CUnknown " + seq([]string{pre, g.block(body, callees)}) + " " + r + ")"
+		r = "(If " + g.unknown(b.List[i]) + " " + seq([]string{pre, g.block(body, callees)}) + " " + r + ")"
 	}
 	return r
 }
@@ -469,6 +755,12 @@ func (g *gen) cond(e ast.Expr) string {
 			return "(COr " + g.cond(x.X) + " " + g.cond(x.Y) + ")"
 		}
 		l, r := g.text(x.X), g.text(x.Y)
+		if strings.HasSuffix(l, ".isView") && (r == "true" || r == "false") && (x.Op == token.EQL || x.Op == token.NEQ) {
+			if (x.Op == token.EQL) == (r == "true") {
+				return `(CFlag "isView")`
+			}
+			return `(CNot (CFlag "isView"))`
+		}
 		if strings.HasSuffix(l, ".isQuery") && (r == "true" || r == "false") {
 			if (x.Op == token.EQL) == (r == "true") {
 				return "(CAtom AQ)"
@@ -511,6 +803,66 @@ func (g *gen) cond(e ast.Expr) string {
 		if x.Sel.Name == "isQuery" {
 			return "(CAtom AQ)"
 		}
+		if x.Sel.Name == "isView" {
+			return `(CFlag "isView")`
+		}
 	}
-	return "CUnknown"
+	return g.unknown(e)
+}
+
+// an undetermined condition; in a function that touches the view counter it carries its source
+// position and text, which the counter analysis prints in its witness paths
+func (g *gen) unknown(n ast.Node) string {
+	if !g.touches[g.cur] || n == nil {
+		return "CUnknown"
+	}
+	p := g.fset.Position(n.Pos())
+	t := g.text(n)
+	if len(t) > 60 {
+		t = t[:60] + "..."
+	}
+	return "(CUnknownAt " + coqStr(fmt.Sprintf("%s:%d: %s", filepath.Base(p.Filename), p.Line, t)) + ")"
+}
+
+// a function that touches the view counter must be structured: break / continue / goto / go /
+// select are translated loosely (fine for the mutator analysis, not for a path-sensitive one)
+func (g *gen) unstructured(n string) {
+	touches := false
+	for s := range flagSites {
+		if s.fn == n && s.field == "nestedView" {
+			touches = true
+		}
+	}
+	if !touches {
+		return
+	}
+	cnt := 0
+	ast.Inspect(g.funcs[n].Body, func(x ast.Node) bool {
+		switch x.(type) {
+		case *ast.BranchStmt, *ast.GoStmt, *ast.SelectStmt, *ast.LabeledStmt:
+			cnt++
+		}
+		return true
+	})
+	if cnt > 0 {
+		flagSites[site{n, "nestedView", fmt.Sprintf("unstructured control flow (%d statements)", cnt)}] = true
+	}
+}
+
+// a Coq string literal: printable ASCII only, double quotes doubled
+func coqStr(t string) string {
+	var b strings.Builder
+	b.WriteByte('"')
+	for _, r := range t {
+		switch {
+		case r == '"':
+			b.WriteString(`""`)
+		case r < 32 || r > 126:
+			b.WriteByte('?')
+		default:
+			b.WriteRune(r)
+		}
+	}
+	b.WriteByte('"')
+	return b.String()
 }
